@@ -50,6 +50,8 @@ def run(ctx):
     else:
         c.graph_leg(ctx, "ReteAgenda.tla", "agenda", "Gen_ReteAgenda_d7.cfg", {}, 30000, 12, 4, "Sim_ReteAgenda.cfg", 40000, 13,
                     timeout=3000)
+    # three rules (a salience tie and a lock-on-active rule), one condition count: EVERY operation sequence to depth 6 (7)
+    c.graph_leg(ctx, "ReteAgenda.tla", "agenda", "Gen_ReteAgenda_3.cfg", {}, 0, 8, 6 if q else 7, histbudget=6000000)
     fireloops(ctx)
     # ordering for the two vector-agenda engines: FireOrder.tla cases (n up to 55 / 128 rules, eight priority patterns)
     c.order_leg(ctx, "Gen_FireOrder.cfg" if q else "Gen_FireOrder_all.cfg", "fire order (ReteUlEngine / TypedReteUlEngine)")
